@@ -91,9 +91,26 @@ def _range_of(node):
 
 
 def extract_check_valid():
-    """Returns (sorted rejected code points, rejects_empty).  The accepted
-    statement shapes are exactly those whose meaning is 'reject when one of
-    these single characters occurs'; anything else raises."""
+    """Returns (sorted rejected code points, rejects_empty).  First the shape
+    matcher below (statement shapes whose meaning is 'reject when one of these
+    single characters occurs'); when the tests are written another way (any(...)
+    over a generator, `not x`, and / or, ...) the constants are derived from the
+    reading harness/translate_reader.py gives check_valid (ast only, its accepted
+    subset, fail closed).  Either way coq/theories/ReaderGenProofs.v
+    (py_check_valid_is_model) proves, for every password, that the translated
+    check_valid is the model's check_valid on exactly these constants - a wrong
+    set cannot pass."""
+    try:
+        return _extract_check_valid_by_shape()
+    except ExtractError as e:
+        try:
+            import translate_reader
+            return translate_reader.check_valid_constants(common.REPO)
+        except Exception as e2:      # noqa: BLE001 - both readings refuse the source
+            raise ExtractError("%s; and the translator's reading fails too: %s" % (e, e2))
+
+
+def _extract_check_valid_by_shape():
     fn = _func(_parse("lib_trainer/trainer_file_input.py"), "check_valid")
     if [a.arg for a in fn.args.args] != ["input_password"]:
         raise ExtractError("check_valid: unexpected signature")
@@ -167,29 +184,39 @@ def extract_check_valid():
 # ------------------------------------------------------------------ read_password
 
 def extract_reader():
+    """The characters stripped from the line end, the $HEX prefix / suffix and the
+    slice of the payload - located by what the calls are (x.rstrip('<chars>'),
+    x.startswith(..) and x.endswith(..) of one test, the slice handed to
+    bytes.fromhex), not by the names of the locals."""
     fn = _func(_parse("lib_trainer/trainer_file_input.py"), "read_password", "TrainerFileInput")
     rstrips, prefixes, suffixes, slices = [], [], [], []
     for n in ast.walk(fn):
         if isinstance(n, ast.Call) and isinstance(n.func, ast.Attribute) and n.func.attr == "rstrip" \
-                and isinstance(n.func.value, ast.Name) and n.func.value.id == "password":
-            if len(n.args) != 1 or not isinstance(n.args[0], ast.Constant):
+                and isinstance(n.func.value, ast.Name):
+            if len(n.args) != 1 or not isinstance(n.args[0], ast.Constant) or not isinstance(n.args[0].value, str):
                 raise ExtractError("read_password: rstrip without a literal argument")
             rstrips.append(n.args[0].value)
         if isinstance(n, ast.Call) and isinstance(n.func, ast.Attribute) and n.func.attr in ("startswith", "endswith") \
-                and isinstance(n.func.value, ast.Name) and n.func.value.id == "clean_password":
-            if len(n.args) != 1 or not isinstance(n.args[0], ast.Constant):
+                and isinstance(n.func.value, ast.Name):
+            if len(n.args) != 1 or not isinstance(n.args[0], ast.Constant) or not isinstance(n.args[0].value, str):
                 raise ExtractError("read_password: startswith/endswith without literal")
-            (prefixes if n.func.attr == "startswith" else suffixes).append(n.args[0].value)
-        if isinstance(n, ast.Subscript) and isinstance(n.value, ast.Name) and n.value.id == "clean_password" \
-                and isinstance(n.slice, ast.Slice):
-            lo = ast.literal_eval(n.slice.lower) if n.slice.lower is not None else None
-            hi = ast.literal_eval(n.slice.upper) if n.slice.upper is not None else None
-            slices.append((lo, hi))
-    if len(rstrips) != 1 or len(prefixes) != 1 or len(suffixes) != 1 or slices != [(len(prefixes[0]), -len(suffixes[0]))]:
+            (prefixes if n.func.attr == "startswith" else suffixes).append((n.func.value.id, n.args[0].value))
+        if isinstance(n, ast.Call) and isinstance(n.func, ast.Attribute) and n.func.attr == "fromhex" \
+                and isinstance(n.func.value, ast.Name) and n.func.value.id == "bytes" and len(n.args) == 1:
+            a = n.args[0]
+            if not (isinstance(a, ast.Subscript) and isinstance(a.value, ast.Name) and isinstance(a.slice, ast.Slice)
+                    and a.slice.step is None):
+                raise ExtractError("read_password: bytes.fromhex of something else than a slice of a local")
+            lo = ast.literal_eval(a.slice.lower) if a.slice.lower is not None else None
+            hi = ast.literal_eval(a.slice.upper) if a.slice.upper is not None else None
+            slices.append((a.value.id, lo, hi))
+    if len(rstrips) != 1 or len(prefixes) != 1 or len(suffixes) != 1 or len(slices) != 1 \
+            or len({prefixes[0][0], suffixes[0][0], slices[0][0]}) != 1 \
+            or slices[0][1:] != (len(prefixes[0][1]), -len(suffixes[0][1])):
         raise ExtractError("read_password: unexpected shape rstrip=%r prefix=%r suffix=%r slices=%r"
                            % (rstrips, prefixes, suffixes, slices))
     return {"reader_rstrip_chars": sorted(set(ord(c) for c in rstrips[0])),
-            "reader_hex_prefix": prefixes[0], "reader_hex_suffix": suffixes[0]}
+            "reader_hex_prefix": prefixes[0][1], "reader_hex_suffix": suffixes[0][1]}
 
 
 def extract_reader_open():
@@ -260,15 +287,16 @@ def extract_reader_glue():
     w = loops[0]
     t = w.test
     ok = (isinstance(t, ast.BoolOp) and isinstance(t.op, ast.And) and len(t.values) == 2
-          and isinstance(t.values[0], ast.Name) and t.values[0].id == "password"
+          and isinstance(t.values[0], ast.Name)
           and isinstance(t.values[1], ast.Compare) and len(t.values[1].ops) == 1 and isinstance(t.values[1].ops[0], ast.NotIn)
           and isinstance(t.values[1].left, ast.Subscript) and isinstance(t.values[1].left.value, ast.Name)
-          and t.values[1].left.value.id == "password"
+          and t.values[1].left.value.id == t.values[0].id
           and isinstance(t.values[1].left.slice, ast.UnaryOp) and isinstance(t.values[1].left.slice.op, ast.USub)
           and isinstance(t.values[1].left.slice.operand, ast.Constant) and t.values[1].left.slice.operand.value == 1
           and isinstance(t.values[1].comparators[0], ast.Constant) and isinstance(t.values[1].comparators[0].value, str))
     if not ok or w.orelse or len(w.body) != 3:
         raise ExtractError("read_password: unrecognised while loop")
+    pw = t.values[0].id          # the local holding the line (whatever it is called)
     a, b, c = w.body
     # the readline may be guarded: try: x = self.file.readline() / except UnicodeError: break
     if isinstance(a, ast.Try):
@@ -286,14 +314,21 @@ def extract_reader_glue():
     if not ok:
         raise ExtractError("read_password: while loop does not start with `x = self.file.readline()`")
     var = a.targets[0].id
+    if var == pw:
+        raise ExtractError("read_password: the re-joining loop overwrites the line")
     tb = b.test if isinstance(b, ast.If) else None
     ok = (isinstance(b, ast.If) and not b.orelse and len(b.body) == 1 and isinstance(b.body[0], ast.Break)
           and ((isinstance(tb, ast.UnaryOp) and isinstance(tb.op, ast.Not) and isinstance(tb.operand, ast.Name) and tb.operand.id == var)
                or (isinstance(tb, ast.Compare) and len(tb.ops) == 1 and isinstance(tb.ops[0], ast.Eq) and isinstance(tb.left, ast.Name)
                    and tb.left.id == var and isinstance(tb.comparators[0], ast.Constant) and tb.comparators[0].value == "")))
-    ok = ok and isinstance(c, ast.AugAssign) and isinstance(c.op, ast.Add) and isinstance(c.target, ast.Name) \
-        and c.target.id == "password" and isinstance(c.value, ast.Name) and c.value.id == var
-    if not ok:
+    # password += more   /   password = password + more
+    app = (isinstance(c, ast.AugAssign) and isinstance(c.op, ast.Add) and isinstance(c.target, ast.Name)
+           and c.target.id == pw and isinstance(c.value, ast.Name) and c.value.id == var) \
+        or (isinstance(c, ast.Assign) and len(c.targets) == 1 and isinstance(c.targets[0], ast.Name) and c.targets[0].id == pw
+            and isinstance(c.value, ast.BinOp) and isinstance(c.value.op, ast.Add)
+            and isinstance(c.value.left, ast.Name) and c.value.left.id == pw
+            and isinstance(c.value.right, ast.Name) and c.value.right.id == var)
+    if not (ok and app):
         raise ExtractError("read_password: unrecognised body of the re-joining loop")
     return sorted(set(ord(ch) for ch in t.values[1].comparators[0].value))
 
